@@ -50,7 +50,7 @@ class FCN(Harness):
     nontrivial_event = "the agent emitted an order"
     bounds = {"quick": "window w in {1,2,3}, current time t in {0,1,3} (t < w and t >= w), mean reversion time in {0,1,5}, "
                        "chart following / contrarian, fixed and normal margin, accessible and inaccessible market",
-              "thorough": "same"}
+              "thorough": "every window 1..5 x current time 0..6 x mean reversion time {0,1,5} x both chart modes x both margin modes"}
     reach = ("nontrivial", "buy", "sell", "no-order", "window-clamped")
     stubs = ("pams.agents.fcn_agent.math -> contract stub (log: defined for x > 0; exp: positive; values otherwise arbitrary)",
              "agent prng.gauss -> solver real")
@@ -65,6 +65,15 @@ class FCN(Harness):
                     for margin in ("fixed", "normal"):
                         out.append({"w": w, "t": t, "mrt": mrt, "follow": follow, "margin": margin, "access": True})
         out.append({"w": 2, "t": 3, "mrt": 1, "follow": True, "margin": "fixed", "access": False})
+        if tier == "thorough":
+            for w in (1, 2, 3, 4, 5):
+                for t in range(0, 7):
+                    for mrt in (0, 1, 5):
+                        for follow in (True, False):
+                            for margin in ("fixed", "normal"):
+                                c = {"w": w, "t": t, "mrt": mrt, "follow": follow, "margin": margin, "access": True}
+                                if c not in out:
+                                    out.append(c)
         return out
 
     def run(self, g, case):
@@ -325,14 +334,14 @@ class Arbitrage(Harness):
     bounds = {"quick": "index over 2 or 3 equal-share components; all running / index stopped / a component stopped; polled "
                        "once, and polled twice in one step with a component trade in between; index or one component not "
                        "accessible to the agent; a second, untradable index market listed first",
-              "thorough": "same"}
+              "thorough": "2 to 5 components"}
     reach = ("nontrivial", "silent-inside-threshold", "index-cheap", "index-rich", "not-running-silent", "second-poll",
              "no-access-silent", "untradable-index-listed-first")
     agreement_runs = 6
 
     def cases(self, tier):
         out = []
-        for n in (2, 3):
+        for n in ((2, 3) if tier == "quick" else (2, 3, 4, 5)):
             for stop in (None, "index", "component"):
                 for twice in (False, True):
                     if stop and twice:
